@@ -47,6 +47,8 @@ def main():
         sys.exit(rc)
     ctx = core.Ctx(prop, tier, seed)
     try:
+        import gen_all
+        ctx.cov["generated_files_refreshed"] = gen_all.regenerate_all()     # never build against tables of another tree
         import gen
         gen.regenerate(ctx)
         if hasattr(mod, "pre_build"):
